@@ -8,7 +8,7 @@
 (* post-state with the step operators and names every clause that fails.   *)
 (* Verdicts are total: one <<"V", {id, failed, detail}>> line per case.     *)
 (***************************************************************************)
-EXTENDS Criteria, Disparity, Refinement, Json, IOUtils, TLC
+EXTENDS Criteria, Disparity, Refinement, Validation, Filter, Json, IOUtils, TLC
 
 Cases == ndJsonDeserialize(IOEnv.TRACE_FILE)
 
@@ -133,7 +133,56 @@ RefVerdict(e) ==
                        IN <<x[1], x[2], e.cv[x[1]][x[2]], e.before.disp[x[1]][x[2]], e.after.disp[x[1]][x[2]],
                             e.after.coef[x[1]][x[2]], e.before.vm[x[1]][x[2]], e.after.vm[x[1]][x[2]]>>]
 
+\* ------------------------------------------------------------------ cross-checking (C07) ------------
+\* e: rows, cols, win, gmin, gmax, thr, dL, dR, vm (before), out: [vm, band ([row][col] rational, <<NaN,1>> = NaN,
+\*    <<1000000009,1>> = not finite/inexact), frame_dL, frame_dR, frame_conf, band_name_ok]
+XcPixelFail(e, x) ==
+   LET r == x[1]  c == x[2]
+       bv == Bits(e.vm[r][c])  av == Bits(e.out.vm[r][c])  band == e.out.band[r][c]
+   IN IF BorderPix(e, r, c) THEN (IF av # {0} THEN {"border_bit0_only"} ELSE {})
+      ELSE IF bv \cap AllInvalidBits # {} \/ ~RIsNum(e.dL[r][c])
+      THEN (IF av # bv THEN {"invalid_not_reexamined"} ELSE {}) \cup (IF RIsNum(e.dL[r][c]) /\ band[1] # NaN THEN {"invalid_band_nan"} ELSE {})
+      ELSE (IF ~(bv \subseteq av /\ (av \ bv) \subseteq {8, 9}) THEN {"only_8_9_added"} ELSE {})
+           \cup (IF {8, 9} \subseteq av THEN {"never_both"} ELSE {})
+           \cup (IF ~(\E q \in Corr(e, r, c) :
+                        /\ (av \ bv) \in AllowedAdd(e, r, c, q)
+                        /\ (IF InRight(e, q) THEN (IF RIsNum(e.dR[r][q]) THEN (RIsNum(band) /\ band[2] > 0 /\ RatEq(band, Dist(e, r, c, q)))
+                                                     ELSE band[1] # NaN)
+                             ELSE band[1] = NaN))
+                 THEN {"cross_check_exact"} ELSE {})
+XcVerdict(e) ==
+   LET fails == [x \in Pix(e) |-> XcPixelFail(e, x)]
+       bad == {x \in Pix(e) : fails[x] # {}}
+   IN [failed |-> UNION {fails[x] : x \in Pix(e)}
+                  \cup (IF ~e.out.frame_dL THEN {"disparity_unchanged"} ELSE {})
+                  \cup (IF ~e.out.frame_dR THEN {"other_map_unchanged"} ELSE {})
+                  \cup (IF ~e.out.frame_conf THEN {"old_bands_unchanged"} ELSE {})
+                  \cup (IF ~e.out.band_name_ok THEN {"band_name"} ELSE {}),
+       detail |-> IF bad = {} THEN <<>>
+                  ELSE LET x == CHOOSE y \in bad : TRUE
+                       IN <<x[1], x[2], e.dL[x[1]][x[2]], e.vm[x[1]][x[2]], e.out.vm[x[1]][x[2]], e.out.band[x[1]][x[2]], e.dR[x[1]]>>]
+
+\* ------------------------------------------------------------------ filters (C10) --------------------
+FiltPixelFail(e, x) ==
+   LET r == x[1]  c == x[2]  o == e.out.d[r][c]
+   IN IF e.bad[r][c] THEN (IF o # e.d[r][c] THEN {"invalid_pixel_unchanged"} ELSE {})
+      ELSE IF ~WinFits(e, r, c) THEN (IF o # e.d[r][c] THEN {"edge_pixel_unchanged"} ELSE {})
+      ELSE IF e.method = "median" THEN (IF ~MedianOk(e, r, c, o) THEN {"median_value"} ELSE {})
+      ELSE (IF ~BilateralOk(e, r, c, o) THEN {"bilateral_enclosure"} ELSE {})
+FiltVerdict(e) ==
+   LET fails == [x \in Pix(e) |-> FiltPixelFail(e, x)]
+       bad == {x \in Pix(e) : fails[x] # {}}
+   IN [failed |-> UNION {fails[x] : x \in Pix(e)}
+                  \cup (IF ~e.out.mask_ok THEN {"mask_unchanged"} ELSE {})
+                  \cup (IF ~e.out.frame_other THEN {"other_data_unchanged"} ELSE {}),
+       detail |-> IF bad = {} THEN <<>>
+                  ELSE LET x == CHOOSE y \in bad : TRUE
+                       IN <<x[1], x[2], e.d[x[1]][x[2]], e.out.d[x[1]][x[2]],
+                            IF WinFits(e, x[1], x[2]) THEN {e.d[y[1]][y[2]] : y \in WinCells(e, x[1], x[2])} ELSE {}>>]
+
 Verdict(e) == CASE e.step = "matching_cost" -> McVerdict(e)
+                [] e.step = "filter" -> FiltVerdict(e)
+                [] e.step = "cross_check" -> XcVerdict(e)
                 [] e.step = "refinement" -> RefVerdict(e)
                 [] e.step = "flags" -> FlagVerdict(e)
                 [] e.step = "disparity" -> DispVerdict(e)
